@@ -758,6 +758,43 @@ def run(ctx):
                                          out[2]))])
         ctx.instance(R)
         ctx.oblige(True)
+    # a tag the header does not have yet is added with set_datatype + set:
+    # set_datatype (interpreted, not stubbed) refuses a predefined tag
+    # declared with another datatype, and must do so before any earlier tag
+    # of the line was merged
+    class RealDatatype(AH2):
+        def before_inline(self, ev, func, args, kwargs):
+            if func.name in ("set_datatype", "get_datatype",
+                             "_check_datatype_settable"):
+                return NotImplemented
+            if func.name == "_field_or_default_datatype":
+                a = args[0]
+                t = a.attrs.get("_datatype", {}).get(args[1])
+                if t is None:
+                    t = {"VN": "Z", "TS": "i"}.get(args[1])
+                return t or ("Z" if isinstance(args[2], str) else "i")
+            if func.name == "_is_predefined_tag":
+                return args[1] in ("VN", "TS")
+            if func.name == "_is_valid_custom_tagname":
+                return True
+            return super().before_inline(ev, func, args, kwargs)
+    for vl in (0, 1, 2):
+        h = Abs(hdr, label="header", _data={"aa": 0}, _datatype={"aa": "i"},
+                vlevel=vl)
+        ln = Abs(hdr, label="line:H", _data={"bb": "x", "TS": "abc"},
+                 _datatype={"bb": "Z", "TS": "Z"}, vlevel=0)
+        before = snapshot([h])
+        out = eval_function(repo, f_merge, [h, ln], hooks=RealDatatype(repo))
+        judge(R, f_merge, "vlevel=%d,line declares the predefined tag TS as "
+              "Z after a new tag" % vl,
+              [(None, (out, before, snapshot([h]), out[2]))])
+        ctx.instance(R)
+        ok = out[0] == "raise"
+        ctx.oblige(ok)
+        if not ok:
+            ctx.violation(R, f_merge.short, "vlevel=%d,TS declared Z" % vl,
+                          "outcome %r: the predefined tag TS (datatype i) "
+                          "cannot be declared Z" % (out[0:2],))
     # at vlevel 0 the tags of the incoming line are decoded when first read:
     # the first get() of each tag can refuse the line (malformed J/B/H)
     class LazyGet(AH2):
